@@ -67,10 +67,14 @@ def check(run, replay=None):
     with Scratch() as d:
         if replay:
             return do_replay(run, binp, replay, d)
+        run.assumptions.append("Head / Tail of an empty sequence are outside the statement (both implementations panic): "
+                               "scripts never apply them to an empty register")
+        run.assumptions.append("New is always handed a fresh argument slice that the harness never touches again "
+                               "(slice.New keeps the caller's array; the statement does not speak about later writes by the caller)")
         # ---- 1. MC
         mcs = [dict(vals="1,2,3", maxops=3, newlen=1, spares="0,1")]
         if thorough:
-            mcs = [dict(vals="1,2,3", maxops=3, newlen=2, spares="0,1"), dict(vals="1,2,3", maxops=4, newlen=1, spares="0,1")]
+            mcs = [dict(vals="1,2,3", maxops=3, newlen=2, spares="0,1"), dict(vals="1,2,3", maxops=4, newlen=1, spares="0")]
         for c in mcs:
             r = run_tlc("SeqADTMC", MC_CFG % c, timeout=2400)
             if r.violated:
